@@ -2,7 +2,10 @@
 use crate::engine::Suite;
 
 pub fn suites() -> Vec<Suite> {
-    let mut v = vec![super::guards::suite_c15()];
+    let mut v = vec![];
+    if cfg!(feature = "d-slip") {
+        v.push(super::guards::suite_c15());
+    }
     v.extend(sys_suites());
     v
 }
